@@ -42,6 +42,9 @@ Definition check_instr (a : list abs) (i : nat) (ins : instr) : bool :=
   | IRun => hascur H && eqa nx (mkA (locks H) false)
   | IJmp tgt => eqa (at_ tgt) H
   | IEnd => eqa H dflt
+  | ISwap qa qb => guarded (gq qa) (locks H) && guarded (gq qb) (locks H) && eqa nx H
+  | IRunB tgt => hascur H && eqa nx (mkA (locks H) false) && eqa (at_ tgt) (mkA (locks H) false)
+  | IPushR q => guarded (gq q) (locks H) && eqa nx H
   | _ => eqa nx H
   end.
 
@@ -381,6 +384,14 @@ Proof.
         -- cbn. rewrite upd_same. unfold habs. cbn. split.
            ++ intros m0 Hm. apply Hown in Hm. apply XL in Hm. exact Hm.
            ++ unfold iscur in Hcur. rewrite XC in Hcur. cbn in Hcur. destruct (cur (thr s t)); [discriminate|reflexivity].
+      (* IRunB *)
+      * destruct (cur (thr s t)) eqn:Ec; [|inversion E; subst s'; exact I].
+        destruct (resub s c) eqn:ER; inversion E; subst s'; clear E;
+        (eapply inv_frame with (t := t); [exact I| |reflexivity| |];
+         [ intros u Hu; cbn; rewrite upd_other by exact Hu; left; reflexivity
+         | intros; cbn; tauto
+         | cbn; rewrite upd_same;
+           eapply ready_intro; [exact Est| unfold ann at 1; cbn; eassumption | intros m0; apply Hown | reflexivity ] ]).
     + (* Woken m: re-acquire *)
       destruct (negb (live s m)); [inversion E; subst s'; exact I|].
       destruct (own s m) eqn:Eo; [discriminate|]. inversion E; subst s'; clear E.
@@ -419,7 +430,7 @@ Definition acc_var (i : instr) : option nat :=
   end.
 Definition acc_que (i : instr) : option nat :=
   match i with
-  | IPush q | IBrEmpty q _ | IPop q => Some q
+  | IPush q | IBrEmpty q _ | IPop q | IPushR q | ISwap q _ => Some q
   | _ => None
   end.
 
